@@ -5,6 +5,12 @@ package guardiansets
 
 // indexed: the list holds exactly the sets 0..current, each at the position of its index.
 //@ pred indexed(gs *GuardianSets) = gs != nil && 0 <= gs.currentGuardianSetIndex && gs.currentGuardianSetIndex <= 4294967295 && len(gs.guardianSetLists) == gs.currentGuardianSetIndex + 1 && (forall i in 0..len(gs.guardianSetLists) :: gs.guardianSetLists[i] != nil && allocated(gs.guardianSetLists[i]) && gs.guardianSetLists[i].Index == i)
+// gs.lock guards the index and the list ("also while newer sets are being appended
+// concurrently"): they are read and written only under the lock, indexed(gs) holds whenever the
+// lock is free, and a second critical section cannot rely on what an earlier one saw.
+//@ monitor (gs *GuardianSets) lock()
+//@   modifies GuardianSets.currentGuardianSetIndex, GuardianSets.guardianSetLists
+//@   invariant [indexed] indexed(gs)
 // consecutive: what the chain query returns - sets from..to in order, each carrying its index
 //@ pred consecutive(s []*common.GuardianSet, from int) = forall k in 0..len(s) :: s[k] != nil && allocated(s[k]) && s[k].Index == from + k
 
